@@ -158,6 +158,9 @@ pub fn sweep_model(tier: Tier, world: &str) -> Hist {
     alpha.rich_amounts = true;
     alpha.sv_multiples = true;
     alpha.extra_amounts = vec![2, 3, 1u64 << 20, 1u64 << 40];
+    // the same instructions with the user's own token account offered in the place of the bank's vaults: a
+    // repayment "into" one's own account must not be credited
+    alpha.vault_swaps = true;
     Hist { w, roots, alpha, oracles: vec![Box::new(NoFreeValueOracle)] }
 }
 
